@@ -395,6 +395,20 @@ func vf38Run(x *venum.X, hist []*vf37Kind, httpT bool, cfg vf38Cfg) {
 		SetTraceContextProvider(func(context.Context) (string, string) { return vf38Trace, "" })
 	case "panic":
 		SetTraceContextProvider(func(context.Context) (string, string) { panic("verif: trace provider panic") })
+	case "scripted":
+		// ONE provider whose answer changes from record to record, as a real
+		// tracer's does: a valid pair, then the same trace with no current span,
+		// the same trace with a malformed span, another valid trace, an
+		// upper-case pair, and the first pair again.
+		answers := [][2]string{{vf38Trace, vf38Span}, {vf38Trace, ""}, {vf38Trace, "not-a-span-id"},
+			{"4bf92f3577b34da6a3ce929d0e0e4736", "00f067aa0ba902b7"}, {strings.ToUpper(vf38Trace), strings.ToUpper(vf38Span)},
+			{"", vf38Span}}
+		i := 0
+		SetTraceContextProvider(func(context.Context) (string, string) {
+			a := answers[i%len(answers)]
+			i++
+			return a[0], a[1]
+		})
 	}
 	var buf bytes.Buffer
 	hook := NewAccessLogHook(&buf, "9.9.9")
@@ -452,7 +466,7 @@ func TestVerif_C38(t *testing.T) {
 	venum.Begin("C38")
 	defer venum.Finish(t)
 	kinds := vf37Kinds()
-	traces := []string{"none", "valid", "dashed", "upper", "half", "panic"}
+	traces := []string{"none", "valid", "dashed", "upper", "half", "panic", "scripted"}
 	claims := []string{"none", "sensitive", "nested"}
 	redactors := []string{"default", "none", "panic"}
 
@@ -500,6 +514,12 @@ func TestVerif_C38(t *testing.T) {
 		httpT := x.Bool("http")
 		cfg := vf38Cfg{trace: "valid", claims: "none", redactor: "default"}
 		cfg.debug = x.Bool("debug")
+		// the provider is either constant or changes its answer per record
+		// (tied to the debug flag to keep the product bounded; record-config
+		// crosses it with everything else)
+		if cfg.debug {
+			cfg.trace = "scripted"
+		}
 		if httpT {
 			cfg.claims, cfg.compress = "sensitive", true
 			if venum.Thorough() {
